@@ -4,6 +4,7 @@ import (
 	"fmt"
 	"go/constant"
 	"go/token"
+	"sort"
 
 	"golang.org/x/tools/go/ssa"
 )
@@ -193,8 +194,9 @@ func succIndex(p, s *ssa.BasicBlock) int {
 }
 
 // isLastCharDigitValue: sum == RuneToInt(r) where r is the last character of content:
-//   content = X + string(r)                      and sum = RuneToInt(r)
-//   sum = RuneToInt(rune(content[len(content)-1]))
+//
+//	content = X + string(r)                      and sum = RuneToInt(r)
+//	sum = RuneToInt(rune(content[len(content)-1]))
 func isLastCharDigitValue(c *Ctx, content, sum ssa.Value) (bool, string) {
 	n := NewNormer(c.P)
 	call, ok := sum.(*ssa.Call)
@@ -361,36 +363,84 @@ func ruleMod10(c *Ctx) {
 			arg := call.Common().Args[0]
 			lv := map[ssa.Value]bool{}
 			treeLeaves(arg, lv, 0)
-			var acc *ssa.Phi
+			var accs []*ssa.Phi
+			allPhi := len(lv) > 0
 			for l := range lv {
-				if p, ok := l.(*ssa.Phi); ok && len(lv) == 1 {
-					acc = p
+				p, ok := l.(*ssa.Phi)
+				if !ok || (len(accs) > 0 && p.Block() != accs[0].Block()) {
+					allPhi = false
+					break
 				}
+				accs = append(accs, p)
 			}
 			name := c.P.FuncName(fn)
-			if acc == nil {
+			if !allPhi || len(accs) == 0 || len(accs) > 2 {
 				continue // not a sum -> check digit conversion
 			}
+			sort.Slice(accs, func(i, j int) bool { return accs[i].Name() < accs[j].Name() })
 			sites++
 			c.Fn(name)
-			// (a) transfer table
-			okT := true
-			bad := ""
-			for s := int64(0); s < 40; s++ {
-				got, ok := evalTree(arg, map[ssa.Value]int64{acc: s}, 0)
-				want := (10 - s%10) % 10
-				if !ok || got != want {
-					okT = false
-					if bad == "" {
-						bad = fmt.Sprintf("s=%d -> %d (want %d)", s, got, want)
+			// (b) accumulator structure: per accumulator the multiple of the digit added when the toggle
+			// is set / clear
+			coef := checkAccumulator(c, R, fn, accs)
+			if coef == nil {
+				continue
+			}
+			// (a) transfer table: the result as a function of the accumulators is
+			// s -> (10 - s mod 10) mod 10 of s = sum of c_i * acc_i, where the c_i make the digit count
+			// 3 times when the toggle is set and once when it is clear
+			okT, found := false, "no combination of the accumulators gives weight 3 / weight 1"
+			for c0 := int64(1); c0 <= 3 && !okT; c0++ {
+				for c1 := int64(1); c1 <= 3 && !okT; c1++ {
+					cs := []int64{c0, c1}
+					var wT, wN int64
+					for i := range accs {
+						wT += cs[i] * coef[i][0]
+						wN += cs[i] * coef[i][1]
+					}
+					if wT != 3 || wN != 1 {
+						continue
+					}
+					good := true
+					bad := ""
+					lim := int64(40)
+					if len(accs) == 2 {
+						lim = 14
+					}
+					for a := int64(0); a < lim && good; a++ {
+						for b := int64(0); b < lim && good; b++ {
+							if len(accs) == 1 && b > 0 {
+								break
+							}
+							env := map[ssa.Value]int64{accs[0]: a}
+							s := cs[0] * a
+							if len(accs) == 2 {
+								env[accs[1]] = b
+								s += cs[1] * b
+							}
+							got, ok := evalTree(arg, env, 0)
+							want := (10 - s%10) % 10
+							if !ok || got != want {
+								good = false
+								bad = fmt.Sprintf("weighted sum %d -> %d (want %d)", s, got, want)
+							}
+						}
+					}
+					if good {
+						okT, found = true, "ok"
+					} else {
+						found = bad
+					}
+					if len(accs) == 1 {
+						break
 					}
 				}
 			}
 			n := NewNormer(c.P)
-			n.Bind[acc] = "s"
-			c.Check(R, name+"/transfer", call.Pos(), okT, "s -> (10 - s mod 10) mod 10", fmt.Sprintf("%s; first difference: %s", n.Norm(arg), orOK(bad)))
-			// (b) accumulator structure
-			checkAccumulator(c, R, fn, acc)
+			for i, a := range accs {
+				n.Bind[a] = fmt.Sprintf("s%d", i)
+			}
+			c.Check(R, name+"/transfer", call.Pos(), okT, "s -> (10 - s mod 10) mod 10 of the weighted digit sum", fmt.Sprintf("%s; %s", n.Norm(arg), found))
 		}
 	}
 	c.Count["check_digit_functions"] = sites
@@ -403,7 +453,10 @@ func orOK(s string) string {
 	return s
 }
 
-func checkAccumulator(c *Ctx, R string, fn *ssa.Function, acc *ssa.Phi) {
+// checkAccumulator returns, per accumulator, the multiple of the digit it gains when the toggle is
+// set and when it is clear (nil when undecided).
+func checkAccumulator(c *Ctx, R string, fn *ssa.Function, accs []*ssa.Phi) [][2]int64 {
+	acc := accs[0]
 	name := c.P.FuncName(fn)
 	header := acc.Block()
 	// toggle: a bool phi in the same header whose back-edge value is !phi
@@ -419,7 +472,7 @@ func checkAccumulator(c *Ctx, R string, fn *ssa.Function, acc *ssa.Phi) {
 	}
 	if toggle == nil {
 		c.Undecided(R, name+"/toggle", acc.Pos(), "no boolean toggle phi next to the accumulator")
-		return
+		return nil
 	}
 	// digit value: call to utils.RuneToInt inside the loop
 	var digit ssa.Value
@@ -430,7 +483,7 @@ func checkAccumulator(c *Ctx, R string, fn *ssa.Function, acc *ssa.Phi) {
 	})
 	if digit == nil {
 		c.Undecided(R, name+"/digit", acc.Pos(), "no utils.RuneToInt call in the loop")
-		return
+		return nil
 	}
 	okNN, whyNN := digitNonNeg(c, fn, digit.(*ssa.Call))
 	c.Check(R, name+"/digit-nonneg", digit.Pos(), okNN, "digit value proven >= 0 where it is added (sign guard, or membership in a table with digit keys only)", whyNN)
@@ -444,10 +497,12 @@ func checkAccumulator(c *Ctx, R string, fn *ssa.Function, acc *ssa.Phi) {
 	}
 	if entryIdx < 0 || backIdx < 0 || len(header.Preds) != 2 {
 		c.Undecided(R, name+"/loop", acc.Pos(), "accumulator loop does not have one entry and one back edge")
-		return
+		return nil
 	}
-	if k, ok := constInt(acc.Edges[entryIdx]); !ok || k != 0 {
-		c.Check(R, name+"/sum-init", acc.Pos(), false, "sum starts at 0", acc.Edges[entryIdx].String())
+	for _, a := range accs {
+		if k, ok := constInt(a.Edges[entryIdx]); !ok || k != 0 {
+			c.Check(R, name+"/sum-init", a.Pos(), false, "sum starts at 0", a.Edges[entryIdx].String())
+		}
 	}
 	// flip
 	flip := false
@@ -486,36 +541,60 @@ func checkAccumulator(c *Ctx, R string, fn *ssa.Function, acc *ssa.Phi) {
 		c.Check(R, name+"/toggle-init", toggle.Pos(), ok, fmt.Sprintf("true iff len odd on lengths %v (weight 3 lands on the right-most digit)", domain), n.CondOf(initV).String()+bad)
 	}
 	// increments per toggle polarity
-	next := acc.Edges[backIdx]
 	body := header.Succs[0]
-	n := NewNormer(c.P)
-	n.Root = fn
-	n.Bind[acc] = "s"
-	n.Bind[digit] = "d"
-	n.Bind[toggle] = "T"
 	T := &Cond{Kind: CBool, Name: "T"}
+	out := make([][2]int64, len(accs))
 	seenT, seenNT := false, false
-	for _, cs := range n.valueCases(fn, body, next, 0) {
-		inc := pAdd(cs.val, pAtom("s"), -1)
-		impT, _, _ := CondRelation(cs.cond, T)
-		impNT, _, _ := CondRelation(cs.cond, cNot(T))
-		var want, key string
-		switch {
-		case impT && !impNT:
-			want, key = "3*d", "T"
-			seenT = true
-		case impNT && !impT:
-			want, key = "d", "!T"
-			seenNT = true
-		default:
-			c.Undecided(R, name+"/increment", acc.Pos(), "an update of the sum is not decided by the toggle: "+cs.val.String()+" when "+cs.cond.String())
-			continue
+	for ai, a := range accs {
+		next := a.Edges[backIdx]
+		n := NewNormer(c.P)
+		n.Root = fn
+		n.Bind[a] = "s"
+		n.Bind[digit] = "d"
+		n.Bind[toggle] = "T"
+		for _, cs := range n.valueCases(fn, body, next, 0) {
+			inc := pAdd(cs.val, pAtom("s"), -1)
+			// the increment must be a constant multiple of the digit
+			var k int64
+			switch {
+			case len(inc) == 0:
+				k = 0
+			case len(inc) == 1 && inc["d"] != 0:
+				k = inc["d"]
+			default:
+				c.Check(R, fmt.Sprintf("%s/increment#%d", name, ai+1), a.Pos(), false, "the sum grows by a multiple of the digit", "s' - s = "+inc.String()+" when "+cs.cond.String())
+				return nil
+			}
+			impT, _, _ := CondRelation(cs.cond, T)
+			impNT, _, _ := CondRelation(cs.cond, cNot(T))
+			switch {
+			case impT && impNT: // infeasible
+			case impT:
+				out[ai][0] = k
+				seenT = true
+			case impNT:
+				out[ai][1] = k
+				seenNT = true
+			default:
+				// independent of the toggle
+				if eqT, _ := CondEquivalent(cAnd(cs.cond, T), cFalse); !eqT {
+					out[ai][0] = k
+					seenT = true
+				}
+				if eqN, _ := CondEquivalent(cAnd(cs.cond, cNot(T)), cFalse); !eqN {
+					out[ai][1] = k
+					seenNT = true
+				}
+			}
 		}
-		c.Check(R, fmt.Sprintf("%s/increment@%s", name, key), acc.Pos(), pEqual(inc, MustRef(want)), "s' - s = "+want+" when "+cs.cond.String(), "s' - s = "+inc.String())
 	}
-	if !seenT || !seenNT {
-		c.Check(R, name+"/increment", acc.Pos(), false, "one update for each toggle polarity", fmt.Sprintf("toggle set: %v, toggle clear: %v", seenT, seenNT))
+	var wT, wN int64
+	for _, o := range out {
+		wT += o[0]
+		wN += o[1]
 	}
+	c.Check(R, name+"/increment", acc.Pos(), seenT && seenNT && wT > 0 && wN > 0, "the digit is added on both toggle polarities", fmt.Sprintf("multiples of the digit per accumulator (toggle set, clear): %v", out))
+	return out
 }
 
 func init() {
